@@ -614,6 +614,46 @@ def run(ctx, only=None):
             return (impl.ops_of(lst) if side == 'py' else t_ops(lst)), int(c.N)
         for compiled in (False, True):
             probe('CliffordCircuit.copy (extended afterwards)', lambda: grow('py', compiled), lambda: grow('t', compiled), (prog6, extra6, Qs6, compiled))
+    # ---- smaller public entry points: bit-string probabilities, weights, unit and zero polynomials, casts, prior POVM of a circuit
+    for _ in range(nx):
+        n = rng.choice([1, 2, 3])
+        rows, _r = G.rand_tableau(rng, n, 0)
+        allbits = [[(b_ >> j_) & 1 for j_ in range(n)] for b_ in range(2 ** n)]
+        probe('StabilizerState.get_prob', lambda: [round(float(impl.state(rows, 0).get_prob(np.array(bs_))), 6) for bs_ in allbits],
+              lambda: [round(float(tstate(rows, 0).get_prob(torch.tensor(bs_))), 6) for bs_ in allbits], rows)
+        Ps = [G.rand_op(rng, n) for _k in range(3)] + [(tuple('I' for _q in range(n)), 0)]
+        probe('weight', lambda: ([int(impl.pauli(P_).weight()) for P_ in Ps], [int(v) for v in impl.plist(Ps).weight()]),
+              lambda: ([ival(tpauli(P_).weight()) for P_ in Ps], [ival(v) for v in tlist(Ps, n).weight().tolist()]), Ps)
+        probe('Pauli.as_list', lambda: [impl.ops_of(impl.pauli(P_).as_list()) for P_ in Ps], lambda: [t_ops(tpauli(P_).as_list()) for P_ in Ps], Ps)
+        ts_ = [(G.rand_op(rng, n), complex(rng.choice([1, -1, 2, 0.5]), rng.choice([0, 1, -0.5]))) for _k in range(2)]
+        pa_ = lambda p: cmap_of(np.asarray(p.gs), np.asarray(p.ps), np.asarray(p.cs))
+        ta_ = lambda p: cmap_of(p.gs.tolist(), p.ps.tolist(), p.cs.tolist())
+        for nm, fp, ft in (('identity @ poly', lambda: pc.pauli_identity(n) @ impl.poly(ts_), lambda: tc.pauli_identity(n) @ tpoly(ts_)),
+                           ('poly @ identity', lambda: impl.poly(ts_) @ pc.pauli_identity(n), lambda: tpoly(ts_) @ tc.pauli_identity(n)),
+                           ('zero + poly', lambda: pc.pauli_zero(n) + impl.poly(ts_), lambda: tc.pauli_zero(n) + tpoly(ts_)),
+                           ('poly - identity', lambda: impl.poly(ts_) - pc.pauli_identity(n), lambda: tpoly(ts_) - tc.pauli_identity(n)),
+                           ('zero @ poly', lambda: (pc.pauli_zero(n) @ impl.poly(ts_)).reduce(), lambda: (tc.pauli_zero(n) @ tpoly(ts_)).reduce())):
+            probe('pauli_identity / pauli_zero', lambda: pa_(fp()), lambda: ta_(ft()), (nm, n, ts_), cmp=close_maps)
+        progp = CU.rand_program(rng, n, rng.randrange(1, 5), kinds=('gen', 'fmap', 'bmap'))
+
+        def povm_(side):
+            if side == 'py':
+                c = CI.identity_circuit(n)
+                for d in progp:
+                    c.take(CU.impl_gate(impl, d))
+                return [impl.ops_of(s_) for s_ in c.povm(2)]
+            c = TCI.identity_circuit(n)
+            for d in progp:
+                g = TCI.CliffordGate(*d.get('order', d['qubits']))
+                if d['kind'] == 'gen':
+                    g.set_generator(tpauli(d['gen']))
+                elif d['kind'] == 'fmap':
+                    g.set_forward_map(tmap(d['F']))
+                else:
+                    g.set_backward_map(tmap(d['Fi']))
+                c.take(g)
+            return [t_ops(s_) for s_ in c.povm(2)]
+        probe('CliffordCircuit.povm', lambda: povm_('py'), lambda: povm_('t'), progp)
     # ---- regions given as boolean masks (numpy mask for pyclifford, torch mask for the port)
     for _ in range(nx * 3):
         n = rng.choice([2, 3, 4, 4, 5])
